@@ -380,7 +380,7 @@ pub fn construct(
     delay: &mut MockDelay,
     delay_us: Option<u32>,
 ) -> Option<Result<Box<dyn Panel>, ()>> {
-    let busy = MockIn(sim.clone());
+    let busy = MockIn(sim.clone(), 0);
     let dc = MockOut(sim.clone(), PinKind::Dc);
     let rst = MockOut(sim.clone(), PinKind::Rst);
     macro_rules! mk {
